@@ -914,10 +914,18 @@ class tensor:
                     else:
                         # Difference in floating point: boolean data cannot be
                         # subtracted and narrow integer types wrap around
+                        # (64-bit integers in exact Python integers: beyond 2**53
+                        # two different values can be the same float)
+                        exact = (
+                            object
+                            if self.data.dtype.kind in "iu"
+                            and self.data.dtype.itemsize >= 8
+                            else float
+                        )
                         all_diffs[p_idx] = np.max(
                             np.abs(
-                                self.data.ravel().astype(float)
-                                - Y.data.ravel().astype(float)
+                                self.data.ravel().astype(exact)
+                                - Y.data.ravel().astype(exact)
                             )
                         )
 
